@@ -447,4 +447,85 @@ theorem valid_of_increasing (a : α) (tb ps : List α) (hlen : tb.length + 1 = p
       simp only [List.map_cons, List.zip_cons_cons] at h1 ⊢
       exact ⟨by positivity, hinc.1, h1⟩
 
+/-! ### the integral as a sum of overlaps -/
+
+theorem overlapSum_eq_zero (segs : List (α × α)) (t : α) (hv : Valid segs) (hne : segs ≠ [])
+    (ht : t ≤ (segs.head hne).1) : overlapSum segs t = 0 := by
+  induction segs with
+  | nil => rfl
+  | cons s rest ih =>
+    obtain ⟨b, m⟩ := s
+    simp only [List.head_cons] at ht
+    cases rest with
+    | nil =>
+      simp only [overlapSum]
+      rw [max_eq_left (by linarith)]; simp
+    | cons s' r =>
+      obtain ⟨b', m'⟩ := s'
+      obtain ⟨hm, hbb, hv'⟩ := hv
+      simp only [overlapSum]
+      rw [ih hv' (by simp) (by simp only [List.head_cons]; linarith)]
+      have : min t b' - b ≤ 0 := by
+        have := min_le_left t b'; linarith
+      rw [max_eq_left this]; simp
+
+/-- the recursive integral is the overlap sum -/
+theorem integFrom_eq_overlapSum (segs : List (α × α)) (acc t : α) (hv : Valid segs) (hne : segs ≠ [])
+    (ht : (segs.head hne).1 ≤ t) : integFrom segs acc t = acc + overlapSum segs t := by
+  induction segs generalizing acc with
+  | nil => exact absurd rfl hne
+  | cons s rest ih =>
+    obtain ⟨b, m⟩ := s
+    simp only [List.head_cons] at ht
+    cases rest with
+    | nil =>
+      simp only [integFrom, overlapSum]
+      rw [max_eq_right (by linarith)]
+    | cons s' r =>
+      obtain ⟨b', m'⟩ := s'
+      obtain ⟨hm, hbb, hv'⟩ := hv
+      simp only [integFrom, overlapSum]
+      split_ifs with h
+      · rw [overlapSum_eq_zero _ t hv' (by simp) (by simp only [List.head_cons]; exact h.le),
+          min_eq_left h.le, max_eq_right (by linarith)]
+        ring
+      · have hge : b' ≤ t := not_lt.mp h
+        rw [ih _ hv' (by simp) (by simpa using hge), min_eq_right hge, max_eq_right (by linarith)]
+        ring
+
+/-! ### the history built by the constructor -/
+
+/-- the `(epoch start, 2N)` segments of a history: `zip(self.time_breaks, self.population_size)` -/
+def histSegs (ps tb : List α) : List (α × α) := ((0 : α) :: tb).zip (ps.map (fun n => 2 * n))
+
+theorem initOk_iff (ps tb : List α) :
+    initOk ps tb = true ↔ (∀ n ∈ ps, 0 < n) ∧ tb.length + 1 = ps.length ∧ increasingFrom 0 tb = true := by
+  simp [initOk, and_assoc]
+
+theorem histSegs_valid (ps tb : List α) (hok : initOk ps tb = true) : Valid (histSegs ps tb) := by
+  obtain ⟨h1, h2, h3⟩ := (initOk_iff ps tb).mp hok
+  exact valid_of_increasing 0 tb ps h2 h3 h1
+
+theorem histSegs_ne (ps tb : List α) (hok : initOk ps tb = true) : histSegs ps tb ≠ [] := by
+  obtain ⟨_, h2, _⟩ := (initOk_iff ps tb).mp hok
+  match ps, h2 with
+  | n :: ps', _ => simp [histSegs]
+
+theorem histSegs_head (ps tb : List α) (hok : initOk ps tb = true) :
+    ((histSegs ps tb).head (histSegs_ne ps tb hok)).1 = 0 := by
+  obtain ⟨_, h2, _⟩ := (initOk_iff ps tb).mp hok
+  match ps, h2 with
+  | n :: ps', _ => simp [histSegs]
+
+theorem init_nat (ps tb : List α) :
+    (History.init ps tb).timeBreaks.zip (History.init ps tb).popSize2 = histSegs ps tb := rfl
+
+/-- the stored coalescent arrays are the image history (starts = accumulated integrals, measures
+inverted) -/
+theorem init_coal (ps tb : List α) (hok : initOk ps tb = true) :
+    (History.init ps tb).coalBreaks.zip (History.init ps tb).coalRate = trFrom (histSegs ps tb) 0 :=
+  newBreaks_zip (histSegs ps tb) (histSegs_valid ps tb hok) (histSegs_ne ps tb hok)
+    (histSegs_head ps tb hok)
+
+
 end Tsdate.Demography
